@@ -87,6 +87,7 @@ def modules():
     add('lfq-extreme-temp', lambda: LFQ(dim=3, codebook_size=8), 3, single=False, kw=dict(inv_temperature=1e4))
     add('lfq-spherical', lambda: LFQ(dim=3, codebook_size=8, spherical=True, experimental_softplus_entropy_loss=True), 3, single=False)
     add('rlfq', lambda: ResidualLFQ(dim=3, codebook_size=8, num_quantizers=3), 3, single=False)
+    add('lfq-cosine-project-in', lambda: LFQ(dim=5, codebook_size=8, cosine_sim_project_in=True, cosine_sim_project_in_scale=2.0), 5, single=False)
     add('latent', lambda: LatentQuantize(levels=[5, 4], dim=2), 2, single=False)
     add('rpq', lambda: RandomProjectionQuantizer(dim=4, codebook_size=8, codebook_dim=3, num_codebooks=2), 4, single=False)
     # VectorQuantize called with a per-position codebook transform (the hook of implicit neural codebooks) and a differentiable consumer of the
@@ -186,6 +187,50 @@ def correspond(ctx, scale):
                     if bad:
                         failures.append({'key': f'{m["name"]}:{fname}:non-finite:{bad[0].split("/")[0]}', 'what': f'{m["name"]} on the "{fname}" input family (step {t}, train={train}): non-finite values in {bad}',
                                          'case': dict(module=m['name'], family=fname, step=t, train=train)})
+                        break
+        # degenerate PARAMETER states: every learnable tensor may hold any finite value - a pruned / dead unit is an exactly-zero column or row, a
+        # freshly zero-initialised layer is all zeros.  (Only nn.Parameters: the non-learned buffers are constants of the algorithm, see C20.)
+        try:
+            pnames = [pn for pn, _ in m['mk']().named_parameters()]
+        except Exception:
+            pnames = []
+        for pn in pnames:
+            for mode in (('col0', 'row0', 'all0') if rep == 0 else ('col0',)):
+                mod = m['mk']()
+                q_ = dict(mod.named_parameters())[pn]
+                with torch.no_grad():
+                    if mode == 'all0' or q_.ndim < 2:
+                        q_.zero_()
+                    elif mode == 'col0':
+                        q_[..., 0].zero_()
+                    else:
+                        q_[0].zero_()
+                for train in (True, False):
+                    mod.train(train)
+                    x = (torch.randn(2, 3, m['dim']) * (1.0 if train else 1e-3))
+                    if m['name'] == 'latent':
+                        x = x.movedim(-1, 1)
+                    x.requires_grad_(True)
+                    ev += 1
+                    dist['degenerate_parameter_states'] = dist.get('degenerate_parameter_states', 0) + 1
+                    key = f'{m["name"]}:param-{mode}:train={train}'
+                    try:
+                        ret = mod(x, **m['kw'])
+                        outs = [('output/' + str(i), r) for i, r in enumerate(ret if isinstance(ret, tuple) else (ret,)) if isinstance(r, torch.Tensor)]
+                        if hasattr(ret, '_fields'):
+                            outs = [(f, getattr(ret, f)) for f in ret._fields]
+                        bad = finite_report(key, outs)
+                        fl = [r for _, r in outs if isinstance(r, torch.Tensor) and r.dtype.is_floating_point and r.requires_grad]
+                        if fl and train:
+                            gs = torch.autograd.grad(sum(r.sum() for r in fl), [x] + [p_ for p_ in mod.parameters()], allow_unused=True)
+                            bad += finite_report(key, [('input-gradient', gs[0])] + [(f'parameter-gradient/{i}', g_) for i, g_ in enumerate(gs[1:])])
+                        bad += finite_report(key, [('state/' + k, v) for k, v in mod.state_dict().items()])
+                    except Exception as ex:
+                        failures.append({'key': f'{m["name"]}:param-{mode}:exception:{type(ex).__name__}', 'what': f'{m["name"]} with parameter {pn} degenerate ({mode}): raised {ex!r}', 'case': dict(module=m['name'], parameter=pn, mode=mode)})
+                        break
+                    if bad:
+                        failures.append({'key': f'{m["name"]}:param-{mode}:non-finite:{bad[0].split("/")[0]}', 'what': f'{m["name"]} with parameter {pn} degenerate ({mode}; an exactly-zero column / row / tensor), finite random input, '
+                                         f'train={train}: non-finite values in {bad}', 'case': dict(module=m['name'], parameter=pn, mode=mode, train=train)})
                         break
         if len(samples) < 5:
             samples.append(dict(module=m['name'], families=list(fams)))
